@@ -8,5 +8,8 @@ CONSTANTS
   Spans = {0}
   YieldSets = {{}, {0, 2}}
   SplitKinds = {0}
+  TailSplitKinds = {0}
+  LateKinds = {0}
+  EmptyFeeds = FALSE
   Interleave = FALSE
 INVARIANTS TypeOK Lossless Contiguous FitsBudget SmallIsPure YieldStartsNewBatch
